@@ -13,13 +13,21 @@ open Prove Difficulty
 /-- **C01 (shape of an accepted response).**  If `check_if_response_is_matched` accepts with
 counts `(r, sc, ln)`, then: the headers are strictly increasing in number and split into
 `r` reorg + `sc` sampled + `ln` last-N headers; the reorg section lies below the requested start,
-ends at `start - 1` and has `lastN` entries or begins at block 1; a non-empty last-N section ends
+ends at `start - 1` and has `lastN` entries or begins at block 1; the last-N section is not empty
+when there are blocks since the start block (`start < last`), and a non-empty last-N section ends
 at the parent of the last header; without samples it begins at the requested start, or — more
 than `lastN` blocks are missing and the server found every requested difficulty inside the last-N
 section — it has exactly `lastN` entries, no block before it reaches the difficulty boundary and
 the first requested difficulty (hence, the difficulties being increasing, every one: see
 `samples_sound_no_sampled`) lies above the parent total difficulty of its first header; with
-samples no block before it reaches the difficulty boundary. -/
+samples no block before it reaches the difficulty boundary.
+
+The non-emptiness conjunct is the repair of `check_if_response_is_matched` (witness
+`witness_last_n_must_not_be_empty`): the pinned tree accepted a response made of a reorg section
+only.  The request builder never sends a request with `start ≥ last`, so for the client's own
+requests the last-N section of an accepted response is never empty; the case `start = last`,
+where the empty section is still accepted (second non-vacuity example below), exists only in the
+repository's unit tests. -/
 theorem shape_sound (lastN : Nat) (c : ReqContent) (headers : List VH) (last : VH) (r sc ln : Nat)
     (h : checkMatched lastN c headers last = .ok (.ok (r, sc, ln))) :
     headers.length = r + sc + ln ∧
@@ -27,6 +35,7 @@ theorem shape_sound (lastN : Nat) (c : ReqContent) (headers : List VH) (last : V
     (∀ x ∈ headers.take r, x.number < c.startNumber) ∧
     (r ≠ 0 → (r = lastN ∨ (headers.head?.map (·.number)) = some 1) ∧
              (headers[r - 1]?.map (·.number)) = some (c.startNumber - 1)) ∧
+    (c.startNumber < last.number → 0 < ln) ∧
     (0 < ln → (headers.getLast?.map (fun l => l.number + 1)) = some last.number) ∧
     (sc = 0 → 0 < ln → (headers[r]?.map (·.number)) = some c.startNumber ∨
       (lastN < last.number - c.startNumber ∧ ln = lastN ∧
@@ -37,7 +46,7 @@ theorem shape_sound (lastN : Nat) (c : ReqContent) (headers : List VH) (last : V
   obtain ⟨-, -, -, hlast, hstart, -⟩ := cmTail_inv htail
   have hrle : r ≤ headers.length := by rw [hr]; exact length_takeWhile_le' ..
   have hlen := cmShape_sum hshape hrle
-  refine ⟨hlen, sorted_increasing _ hsorted, ?_, hreorg, hlast, ?_, ?_⟩
+  refine ⟨hlen, sorted_increasing _ hsorted, ?_, hreorg, cmTail_nonempty htail, hlast, ?_, ?_⟩
   · intro x hx
     rw [hr, take_length_takeWhile] at hx
     simpa using of_mem_takeWhile _ _ _ hx
@@ -105,7 +114,7 @@ theorem samples_sound_no_sampled (lastN : Nat) (c : ReqContent) (headers : List 
     (hstart : (headers[r]?.map (·.number)) ≠ some c.startNumber)
     (h : checkMatched lastN c headers last = .ok (.ok (r, 0, ln))) :
     ∃ f, headers[r]? = some f ∧ f.ptd < c.boundary ∧ ∀ d ∈ c.difficulties, f.ptd < d := by
-  obtain ⟨-, -, -, -, -, hshape, -⟩ := shape_sound lastN c headers last r 0 ln h
+  obtain ⟨-, -, -, -, -, -, hshape, -⟩ := shape_sound lastN c headers last r 0 ln h
   rcases hshape rfl hln with h0 | ⟨-, -, f, hf, hb, hd⟩
   · exact absurd h0 hstart
   · refine ⟨f, hf, hb, ?_⟩
@@ -274,6 +283,30 @@ theorem witness_last_n_must_reach_tip :
     let hd (n ptd : Nat) : VH := ⟨n, n, n, n - 1, ptd, n - 1, ⟨0, n, 1000⟩, 0x20028f5c, true, true, true⟩
     checkMatched 2 ⟨40, 0, 0, 2, 2000, [150, 450]⟩
       [hd 1 100, hd 4 400, hd 20 2000, hd 21 2100] (hd 40 4000) = .ok (.error 400) := by
+  rfl
+
+/-- Witness kept from the pinned tree (defect fixed in `check_if_response_is_matched`): a
+response whose headers are **all** below the requested start number 38 — a reorg section of
+exactly `lastN = 2` genuine headers `[36, 37]` ending at `start - 1`, no sampled and no last-N
+header — for last header 40, i.e. with the blocks 38 and 39 since the start block missing, is now
+rejected as malformed.
+
+Behaviour of the pinned tree (not of this model): every later check was guarded by
+`if last_n_count > 0 {…}`, the response passed with `.ok (.ok (2, 0, 0))`, and the prove state
+was committed with a last-N window shifted down to `[36, 37]`. -/
+theorem witness_last_n_must_not_be_empty :
+    let hd (n ptd : Nat) : VH := ⟨n, n, n, n - 1, ptd, n - 1, ⟨0, n, 1000⟩, 0x20028f5c, true, true, true⟩
+    checkMatched 2 ⟨40, 0, 38, 2, 3850, [150, 450]⟩
+      [hd 36 3600, hd 37 3700] (hd 40 4000) = .ok (.error 400) := by
+  rfl
+
+/-- non-vacuity of the corner `start = last` left open by `shape_sound` (only the repository's
+unit tests send such a request): start number 40 = last number 40, reorg section `[38, 39]`, no
+other header — still accepted, with counts `(2, 0, 0)` -/
+example :
+    let hd (n ptd : Nat) : VH := ⟨n, n, n, n - 1, ptd, n - 1, ⟨0, n, 1000⟩, 0x20028f5c, true, true, true⟩
+    checkMatched 2 ⟨40, 0, 40, 2, 3850, [150, 450]⟩
+      [hd 38 3800, hd 39 3900] (hd 40 4000) = .ok (.ok (2, 0, 0)) := by
   rfl
 
 /-- non-vacuity: the honest shape (samples 1 and 4, last-N `[38, 39]` with the boundary inside
